@@ -46,7 +46,8 @@ CLAIMED = {
             'DESIGN.md §2 C11'),
     'C06': ('byte / character unit inference (qualifier analysis over every column expression: sources by attribute, conversion call and '
             'naming convention; sinks: col_offset stores and keywords, c2b/b2c arguments, string indices, regex / startswith positions, '
-            'fstloc columns, unit-named parameters of resolved callees); line/column pairing of guarded position stores; registry '
+            'fstloc columns, unit-named parameters of resolved callees); line/column pairing of guarded position stores, of conversions, of '
+            'line lengths and of local line aliases (stale after rebinding); lexicographic ordering of (line, column) pairs; registry '
             'coverage of computed locations',
             'Static: decides over ~2000 unit-carrying constructs in the whole package that byte offsets and character columns are never '
             'mixed, stored into each other\'s slots or passed to each other\'s parameters, that a column adjustment is guarded by the '
@@ -131,7 +132,8 @@ CLAIMED = {
     'C18': ('table exhaustiveness of template-slot discovery against identifier fields of the grammar; receiver check '
             '(template never mutated) and dominance of the per-iteration template copy; dominance / post-dominance of the '
             'substitution counter on the CFG of subn()',
-            'Static, three narrow clauses: slot discovery covers every place an identifier can be written, the template is '
+            'Static, five narrow clauses (the last two: a per-location loop budget is restored on every path leaving the location; the '
+            'index recorded for a list slot enumerates the field itself): slot discovery covers every place an identifier can be written, the template is '
             'never consumed, and one count per performed substitution on every path. Equality with a reference '
             'transformer and nested/count/loop semantics are not decided.',
             'Trusts READ_ONLY method list for FST receivers in sa/rules/c18.py.',
@@ -158,7 +160,8 @@ CLAIMED = {
             'DESIGN.md §2 C09'),
     'C03': ('registry agreement / exhaustiveness of the four handler tables against FIELDS and the stdlib grammar; shape check '
             'of generated accessors; entry-point funnel + options forwarding + sibling agreement; flow-sensitive '
-            'interprocedural raw-index typestate (RAW > range-checked > clean) over per-function CFGs',
+            'interprocedural raw-index typestate (RAW > range-checked > clean) over per-function CFGs; flow-sensitive coordinate kinds '
+            '(view-relative vs base-field indices) in view.py; must-reach of the bounded-view end maintenance after kernel edits',
             'Static, exhaustive over all (class, field) rows and all handler functions: decides that every grammar position '
             'has put/get handlers of the right kind, that all equivalent entry points funnel into the same kernel call with '
             'the same field / one / options, and that no handler uses start/stop/idx before normalising it. Necessary '
